@@ -311,3 +311,76 @@ def thorough_family(seed=0):
     progs = family_expr() + family_fun() + family_cls() + family_data() + family_elif()
     ctl = family_ctl(max_n=4, depth=2, seed=seed)
     return progs, ctl
+
+
+# ---- F-val: programs for the abstract-value properties (C08/C09); entry is called with unknown inputs ----------------------
+KV = "class K:\n    def __init__(self, v):\n        self.v = v\n"
+HV = "def h(p):\n    return p + 1\n"
+TAIL = "\nf(inp(0), inp(1), inp(2))\n"
+
+
+def family_val():
+    P = []
+
+    def add(name, lines, helpers="", exact=True):
+        p = prog(name, "F-val", lines, helpers=helpers)
+        p["src"] += TAIL
+        p["exact"] = exact
+        P.append(p)
+    add("const_chain", ["x = 5", "y = x + 2", "z = y * 3", "return z"])
+    add("overwrite_seq", ["x = 1", "x = 2", "y = x", "return y"])
+    add("branch_overwrite", ["x = 5", "if c:", "    x = 7", "z = x", "return z"])
+    add("both_arms", ["if c:", "    x = 1", "else:", "    x = 2", "y = x + 10", "return y"])
+    add("binop_sets", ["if c:", "    x = 1", "else:", "    x = 2", "if a < b:", "    y = 10", "else:", "    y = 20", "z = x + y", "return z"])
+    add("arm_then_overwrite", ["if c:", "    x = 1", "else:", "    x = 2", "x = 3", "y = x", "return y"])
+    add("nested_arms", ["x = 0", "if c:", "    if a < b:", "        x = 1", "    else:", "        x = 2", "y = x", "return y"])
+    add("early_return", ["x = 1", "if c:", "    return x", "x = 2", "y = x", "return y"])
+    add("string_concat", ["s = 'ab'", "t = s + 'c'", "return t"])
+    add("compare_consts", ["x = 3", "y = x < 5", "z = x == 4", "return y"])
+    add("unknown_arith", ["x = a + 1", "y = x * 2", "return y"], exact=False)
+    add("unknown_or_const", ["if c:", "    x = a", "else:", "    x = 3", "y = x", "return y"], exact=False)
+    add("field_rw", ["o = K(3)", "o.w = 4", "t = o.v", "u = o.w", "o.v = 9", "t2 = o.v", "return t2"], helpers=KV)
+    add("two_objects", ["o = K(1)", "p = K(2)", "o.v = 5", "q = p.v", "r = o.v", "return q"], helpers=KV)
+    add("alias_object", ["o = K(1)", "p = o", "p.v = 5", "q = o.v", "return q"], helpers=KV)
+    add("field_in_branch", ["o = K(1)", "if c:", "    o.v = 2", "q = o.v", "return q"], helpers=KV)
+    add("other_field_untouched", ["o = K(1)", "o.w = 7", "o.v = 2", "q = o.w", "return q"], helpers=KV)
+    add("call_sites", ["r1 = h(10)", "r2 = h(20)", "return r1"], helpers=HV)
+    add("call_sites_in_arms", ["if c:", "    r = h(1)", "else:", "    r = h(5)", "s = r", "return s"], helpers=HV)
+    add("callee_two_returns", ["r = h2(c)", "return r"], helpers="def h2(p):\n    if p:\n        return 1\n    return 2\n")
+    add("param_alias_write", ["o = K(1)", "s0(o)", "t = o.v", "return t"], helpers=KV + "\ndef s0(q):\n    q.v = 8\n")
+    add("callee_reads_field", ["o = K(4)", "t = g0(o)", "return t"], helpers=KV + "\ndef g0(q):\n    return q.v\n")
+    add("list_elements", ["l = [1, 2]", "x = l[0]", "l[1] = 5", "y = l[1]", "return y"], exact=False)
+    add("dict_elements", ["d = {'k': 1}", "d['j'] = 2", "x = d['k']", "return x"], exact=False)
+    add("copy_chain", ["x = 4", "y = x", "z = y", "x = 6", "w = z", "return w"])
+    return P
+
+
+def val_witnesses():
+    W = []
+
+    def add(name, lines, known, helpers=""):
+        p = prog(name, "witness", lines, helpers=helpers, known=known)
+        p["src"] += TAIL
+        p["exact"] = False
+        W.append(p)
+    add("w_quote_mix_concat", ["s = " + repr('a" + "b') + " + 'c'", "return s"], "string constant content re-interpreted when folded")
+    add("w_digit_strings", ["s = '1' + '2'", "return s"], "digit strings folded as integers")
+    return W
+
+
+def family_val_ctl(max_n=3):
+    """loop-free control skeletons over a constant-valued variable: every path gives x a different constant."""
+    out = []
+    idx = 0
+    for n in range(1, max_n + 1):
+        for sk in skeletons(n, 2, kinds=["A", "O", "R", "I", "IE"]):
+            if not has(sk, ("I", "IE")):
+                continue
+            idx += 1
+            g = Gen()
+            lines = ["x = 2"] + render(sk, g, False, 0) + ["y = x", "return y"]
+            p = prog(f"valctl{idx:04d}", "F-val", lines)
+            p["src"] += TAIL
+            p["exact"] = True
+            out.append(p)
+    return out
